@@ -119,6 +119,12 @@ func widen(m *pb.QuoteV4, c *gen.Concrete) {
 var lastSet sync.Map // *verify.Options -> the flag settings its caller asked for last
 
 func RunVerifyWith(c *gen.Concrete, reuse *verify.Options, id, sub int, o map[string]any, extra Event) []Event {
+	evs, _ := RunVerifyWithOpts(c, reuse, id, sub, o, extra)
+	return evs
+}
+
+// RunVerifyWithOpts also returns the options value the call went through (nil if the configuration was refused).
+func RunVerifyWithOpts(c *gen.Concrete, reuse *verify.Options, id, sub int, o map[string]any, extra Event) ([]Event, *verify.Options) {
 	c.Getter.Reset()
 	opts := VerifyOpts(c, o)
 	if opts == nil { // the root-of-trust configuration was refused: nothing can be verified under it
@@ -126,7 +132,7 @@ func RunVerifyWith(c *gen.Concrete, reuse *verify.Options, id, sub int, o map[st
 		for k, v := range extra {
 			call[k] = v
 		}
-		return []Event{call, {"ev": "Return", "verdict": "reject", "err": "RootOfTrustToOptions refused the configuration"}}
+		return []Event{call, {"ev": "Return", "verdict": "reject", "err": "RootOfTrustToOptions refused the configuration"}}, nil
 	}
 	if reuse != nil {
 		// a caller who re-uses an Options value changes only what it wants changed: a flag that keeps its value from the previous call
@@ -162,7 +168,7 @@ func RunVerifyWith(c *gen.Concrete, reuse *verify.Options, id, sub int, o map[st
 	evs := []Event{call}
 	evs = append(evs, FetchEvents(c)...)
 	evs = append(evs, Event{"ev": "Return", "verdict": out.Verdict(), "err": out.ErrText()})
-	return evs
+	return evs, opts
 }
 
 // VerifyCfg configures the verify-family driver.
@@ -364,9 +370,18 @@ func RunHistoryCase(cs map[string]any, id int, seed int64) Result {
 			entry = "msg"
 		}
 		o := map[string]any{"gc": step["gc"], "cr": step["cr"], "now": "set", "entry": entry}
-		evs := RunVerifyWith(c, shared, id, i, o, Event{"wid": step["wid"], "shared": cs["shared"]})
+		evs, used := RunVerifyWithOpts(c, shared, id, i, o, Event{"wid": step["wid"], "shared": cs["shared"]})
 		evs[0]["input"] = cs
 		res.Events = append(res.Events, evs...)
+		if i == 0 && cs["mid"] == "addRoot" && used != nil && used.TrustedRoots != nil && c.W.Get("rotVia") != "pool" {
+			// the owner of the first options value adds a root to *its* pool (the one RootOfTrustToOptions built for it): that is its own
+			// business and must not be visible in a pool built later from the same configuration
+			home := c.A
+			if c.W.Get("leafPki") == "B" {
+				home = c.B
+			}
+			used.TrustedRoots.AddCert(home.Root.Cert)
+		}
 		if i == 0 && cs["mid"] == "levels" && shared != nil {
 			// the reporting call between the two verifications, through the same Options value; what it returns is not judged here
 			// (C04 / TcbLevels judge it), only that it leaves the options as the caller set them
